@@ -16,6 +16,8 @@ from mc import core
 from mc import shapes
 import vfx
 from vfx import nodes as N
+from vfx.pa import common as pa_common
+from vfx.pb import common as pb_common
 
 PROP = 'C14'
 LEVEL = 'model_checking'
@@ -206,6 +208,9 @@ def make(shape, raw=False):
       k0, k1 = arg_keys(o)
       o.__argument_tags__[k0].add(N.TagD)   # grandchild of TagA
       o.__argument_tags__[k1].add(N.TagC)
+      # two different tag classes with the same name (different modules)
+      o.__argument_tags__[k0].add(pa_common.DType)
+      o.__argument_tags__[k1].add(pb_common.DType)
   return objs[-1]
 
 
@@ -394,6 +399,38 @@ def state_checks(real, twin, untagged_twin_maker, res, case):
     if canon.canon_cfg(tgt) != want:
       return bad('tags-lost-or-changed/diff',
                  f'after apply_diff: {tgt!r}\n expected {twin!r}')
+  # the same from an untagged twin whose root is a different callable that
+  # lacks the parameter `y` (the diff switches the callable and adds tags to
+  # arguments only the new callable has)
+  def other_callable():
+    base = untagged_twin_maker()
+    if arg_keys(base) != ['x', 'y'] or isinstance(
+        base, tagging.TaggedValueCls):
+      return None
+    try:
+      fdl.update_callable(base, N.only_x, drop_invalid_args=True)
+    except Exception:  # pylint: disable=broad-except
+      return None
+    return base
+  d = None
+  base = other_callable()
+  if base is not None:
+    try:
+      d = diffing.build_diff(base, real)
+    except Exception as e:  # pylint: disable=broad-except
+      res.counters['build_diff_raised_(judged_by_C10)'] += 1
+  if d is not None:
+    tgt = other_callable()
+    try:
+      diffing.apply_diff(d, tgt)
+    except Exception as e:  # pylint: disable=broad-except
+      return bad('apply_diff-of-tag-diff-raises/with-callable-change',
+                 f'{type(e).__name__}: {e}; diff {d}')
+    res.transitions += 1
+    if canon.canon_cfg(tgt) != want:
+      return bad('tags-lost-or-changed/diff-with-callable-change',
+                 f'after apply_diff from a base with another callable: '
+                 f'{tgt!r}\n expected {twin!r}')
   # the same from an untagged twin whose two root arguments are swapped (the
   # diff then moves nodes as well as adding tags to their arguments)
   def swapped():
